@@ -345,6 +345,8 @@ type Map struct {
 	n       int
 }
 
+var nanKeys int
+
 func newMap(kt types.Type) *Map { return &Map{kt: kt, idx: map[string]int{}} }
 
 func (m *Map) Len() int {
@@ -371,6 +373,13 @@ func hashKey(v Value) (string, bool) {
 	case Float:
 		if v.S != nil {
 			return "", false
+		}
+		if v.C != v.C { // NaN is never equal to itself: every NaN key is a new entry and no lookup finds it
+			nanKeys++
+			return fmt.Sprintf("fNaN#%d", nanKeys), true
+		}
+		if v.C == 0 { // +0 and -0 are the same key
+			return "f0", true
 		}
 		return fmt.Sprintf("f%v", math.Float64bits(v.C)), true
 	case Str:
